@@ -239,8 +239,12 @@ def spellings(name, rng):
             low.replace('_', ' ', 1)]
 
 
+class Positional(tuple):
+    """settings given as SEVERAL positional constructor arguments: AnsiString('x', *settings)"""
+
+
 def settings_of(form):
-    s = AnsiString('x', form)
+    s = AnsiString('x', *form) if isinstance(form, Positional) else AnsiString('x', form)
     return [str(x) for x in s.ansi_settings_at(0)], str(s)
 
 
@@ -314,7 +318,10 @@ def c14_run(rep, rng, tier, term):
         flat = list(g)
         text = ';'.join(map(str, g))
         nest = [g[0], [g[1], [x for x in g[2:]]]] if len(g) > 2 else [g]
-        check_equal('groups', flat, [text, tuple(flat), [flat], nest, [[x] for x in flat]], {'codes': g})
+        check_equal('groups', flat, [text, tuple(flat), [flat], nest, [[x] for x in flat], Positional(flat), Positional([flat[0], flat[1:]])], {'codes': g})
+        ra, rb = call(lambda: settings_of(flat)), call(lambda: (lambda a: ([str(x) for x in a.ansi_settings_at(0)], str(a)))(AnsiStr('x', *flat)))
+        if ra != rb:
+            viol.append({'oracle': 'C14.groups', 'case': {'codes': g, 'form': 'AnsiStr positional'}, 'msg': 'AnsiStr("x", *%s) gives %s, the list gives %s' % (flat, rb, ra)})
         reqs.append([7, form_wire(['list', [['int', x] for x in g]])]); meta.append((g, call(lambda: settings_of(flat))))
     # "flattened in order": an integer run contributes the same settings wherever it stands relative to non-integer
     # neighbours (every code 0..255, plus malformed / dangling colour groups), as int, decimal string and nested
@@ -405,7 +412,7 @@ def c14_run(rep, rng, tier, term):
         flat = list(parts)
         joined = ';'.join(parts)
         nested = [parts[0], parts[1:]] if len(parts) > 1 else [parts]
-        check_equal('flatten', flat, [joined, tuple(flat), nested, [[p] for p in parts]], {'directives': parts})
+        check_equal('flatten', flat, [joined, tuple(flat), nested, [[p] for p in parts], Positional(flat)], {'directives': parts})
         f = g.form()
         reqs.append([7, form_wire(f)]); meta.append((f, None))
     # errors
@@ -675,6 +682,23 @@ def c16_run(rep, rng, tier, term):
                 viol.append({'oracle': 'C16.state', 'case': payload, 'msg': 'state differs from the explicit apply/remove loop: %s vs %s' % (describe(c1), describe(c2))})
             if c1.base_str != o.base_str:
                 viol.append({'oracle': 'C16.text', 'case': payload, 'msg': 'text changed'})
+    # characters on which str.lower() / casefold() and re.IGNORECASE disagree, or whose lower-case form has another length
+    for text in ('\u0130zmir is big', '\u039f\u0394\u039f\u03a3 \u03bf\u03b4\u03bf\u03c2', 'Mi\u017f\u017fi\u017f\u017fippi', 'stra\u00dfe STRASSE', 'a\u212ab K k', '\ufb01sh FISH'):
+        for spec in sorted(set([text[1:3], text[-3:], text[-3:].upper(), text[:2].lower(), 'IS', 'ss', 'SS', 'k', '\u03bf\u03b4\u03bf\u03c3', 'fi', 's'])):
+            for mc in (False, True):
+                for un in (False, True):
+                    for cls in (AnsiString, AnsiStr):
+                        payload = {'text': text, 'pattern': spec, 'match_case': mc, 'method': 'unformat_matching' if un else 'format_matching', 'class': cls.__name__}
+                        rep.count(payload, True)
+                        src = AnsiString(text, 'bold'); src.apply_formatting('red', 2, 9)
+                        c1, c2 = cls(src), AnsiString(src)
+                        r1 = call(lambda: (c1.unformat_matching(spec, 'red', match_case=mc) if un else c1.format_matching(spec, 'bg_blue', match_case=mc)))
+                        res = r1[1] if (cls is AnsiStr and r1[0] == 'ok') else c1
+                        for m in re.finditer(re.escape(spec), text, 0 if mc else re.IGNORECASE):
+                            (c2.remove_formatting('red', m.start(), m.end()) if un else c2.apply_formatting('bg_blue', m.start(), m.end()))
+                        if r1[0] != 'ok' or value_obs(res) != value_obs(c2):
+                            viol.append({'oracle': 'C16.state', 'case': payload,
+                                         'msg': 'state differs from the explicit loop over the re matches: %s vs %s' % (describe(res) if r1[0] == 'ok' else r1, describe(c2))})
     return viol, []
 
 
@@ -1122,6 +1146,25 @@ def c13_run(rep, rng, tier, term):
     covered = set()
     vals = impl.build_values(rng, 120 if tier == 'quick' else 5000, odd=False)
     impl.drain_unobservable()
+    # constructor from text that already CONTAINS escape sequences (also sequences that leave no setting behind: a lone
+    # reset, unknown codes, a style switched on and off before any text, a sequence after the last character)
+    fixed_ansi = ['\x1b[0mabc', '\x1b[mabc', 'abc\x1b[0m', 'a\x1b[0mbc', '\x1b[99mabc', '\x1b[31m\x1b[0mabc', 'abc\x1b[31m', '\x1b[31mabc',
+                  '\x1b[2Jabc', '\x1b[1mab\x1b[22mc', '\x1b[38;5mab', '', '\x1b[m', '\x1b[31m']
+    for w in fixed_ansi + [ansi_input(rng) for _ in range(300 if tier == 'quick' else 20000)]:
+        for forms in ([], ['bold']):
+            payload = {'source text': w, 'settings': forms}
+            rep.count(payload, '\x1b[' in w)
+            ra, rb = call(lambda: AnsiString(w, *forms)), call(lambda: AnsiStr(w, *forms))
+            if ra[0] != rb[0] or (ra[0] == 'err' and ra[1] != rb[1]):
+                viol.append({'oracle': 'C13.ctor', 'case': payload, 'msg': 'AnsiString %s, AnsiStr %s' % (ra, rb)})
+                continue
+            if ra[0] != 'ok':
+                continue
+            if value_obs(ra[1]) != value_obs(rb[1]):
+                viol.append({'oracle': 'C13.ctor', 'case': payload, 'msg': 'AnsiStr(%r) differs from AnsiString: %s vs %s' % (w, describe(rb[1]), describe(ra[1]))})
+            elif str.__str__(rb[1]) != rb[1].to_str() or ('%s' % rb[1]) != rb[1].to_str():
+                viol.append({'oracle': 'C13.payload', 'case': payload,
+                             'msg': 'AnsiStr(%r): str payload %r differs from its own rendering %r' % (w, str.__str__(rb[1]), rb[1].to_str())})
     # constructor forms
     g = Gen(rng, odd=False)
     for (o, ops, i) in vals[:200 if tier == 'quick' else 5000]:
